@@ -451,7 +451,7 @@ let c04_clause_name = function
   | WEmptyName -> "member-without-a-name"
 
 let run_c04 ic =
-  let n = ref 0 and n_dis = ref 0 and n_fail = ref 0 and n_err = ref 0 and n_cpio = ref 0 in
+  let n = ref 0 and n_dis = ref 0 and n_fail = ref 0 and n_err = ref 0 and n_cpio = ref 0 and n_tar = ref 0 and n_outer = ref 0 in
   iter_cases ic (fun _ -> ()) (fun c ->
       incr n;
       let f = fmt_of_string c.format in
@@ -488,6 +488,34 @@ let run_c04 ic =
               | Some l -> Some (List.map (fun ((nm, md), d) -> (implode nm, int_of_nat md, List.length d, Digest.to_hex (Digest.string (implode d)))) l) in
             (if ours = Some theirs then [] else ["cpio: the container model's reader and the harness's reader find different entries"])
             @ (if cpio_reencodes s then [] else ["cpio: the container model's writer does not reproduce the payload archive from its entries"]) in
+        (* every tar stream: the model's block-level reader finds the members a raw scan finds, and the model's writer
+           reproduces the stream byte for byte - complete archives with the end marker, apk's cut segments without *)
+        let tar_notes =
+          List.concat (List.filter_map (fun (k, t) ->
+              if k <> "tar" then None else begin
+                incr n_tar;
+                let nm = unhexs t.(1) and full = t.(2) = "1" and s = explode (unhexs t.(3)) in
+                let rec int_of_nat = function O -> 0 | S n -> 1 + int_of_nat n in
+                let theirs = List.filter_map (fun (k2, t2) ->
+                    if k2 = "tarent" && unhexs t2.(1) = nm then Some (Char.chr (int_of_string t2.(2)), int_of_string t2.(3)) else None) c.extra in
+                let ours = match tar_raw_list s with None -> None | Some l -> Some (List.map (fun (f, n) -> (f, int_of_nat n)) l) in
+                Some ((if ours = Some theirs then [] else [Printf.sprintf "tar %s: the container model's reader and the raw block scan find different members" nm])
+                      @ (if (if full then tar_reencodes_full s else tar_reencodes_cut s) then []
+                         else [Printf.sprintf "tar %s: the container model's writer does not reproduce the %s from its members" nm
+                                 (if full then "complete archive (header checksums, size fields, padding, two zero blocks)" else "cut segment (no end-of-archive marker)")]))
+              end) c.extra) in
+        (* the outer containers: a .deb IS the ar encoding of its members, an .rpm IS lead + signature section + padding to 8
+           + header section + payload (Properties/C04: C04_ar_check_sound, C04_rpm_check_sound) *)
+        let outer_notes = match List.assoc_opt "pkgbytes" c.extra with
+          | None -> []
+          | Some t ->
+            incr n_outer;
+            let s = explode (unhexs t.(1)) in
+            (match f with
+             | FDeb -> if ar_reencodes s then [] else ["ar: the container model's writer does not reproduce the .deb from its members (names, sizes, padding)"]
+             | FRpm -> if rpm_reencodes s then [] else ["rpm: the file-layout model does not reproduce the .rpm (lead, signature section, padding to 8, header section, payload)"]
+             | _ -> []) in
+        let cpio_notes = cpio_notes @ tar_notes @ outer_notes in
         let agree = agree && cpio_notes = [] in
         if not agree then incr n_dis;
         if clauses <> [] then incr n_fail;
@@ -499,7 +527,7 @@ let run_c04 ic =
         if clauses <> [] || not agree then
           report ~kf c.id agree (List.sort_uniq compare (List.map c04_clause_name clauses)) []
             (cpio_notes @ List.map (fun (k, _) -> "structure fact false: " ^ k) bad @ (if install_ok then [] else [".INSTALL presence does not match configured scripts"])));
-  Printf.printf "SUMMARY cases=%d disagreements=%d impl_failures=%d impl_errors=%d cpio_archives_reencoded=%d\n" !n !n_dis !n_fail !n_err !n_cpio
+  Printf.printf "SUMMARY cases=%d disagreements=%d impl_failures=%d impl_errors=%d cpio_archives_reencoded=%d tar_streams_reencoded=%d outer_containers_reencoded=%d\n" !n !n_dis !n_fail !n_err !n_cpio !n_tar !n_outer
 
 (* ---------- C02 ---------- *)
 let group_lists (l : (string * string) list) : (char list * char list list) list =
